@@ -32,6 +32,15 @@ type RoundTripSpec struct {
 	// UnorderedArrays names modules whose exported arrays carry no order (the module builds them from Go maps;
 	// that nondeterminism is C11's subject): their arrays are sorted before the fixpoint comparison.
 	UnorderedArrays map[string]bool
+	// Gov are parameter changes by the authority offered as extra operations in every state ("for all valid
+	// parameter sets": a chain's parameters change mid-history, after objects were created under the old ones).
+	Gov []GovOp
+}
+
+// GovOp is one governance message; Msg may return nil when it does not apply in the state.
+type GovOp struct {
+	Name string
+	Msg  func(e *Env, ctx sdk.Context) sdk.Msg
 }
 
 func storeOf(mod string) string {
@@ -49,11 +58,28 @@ type RoundTrip struct {
 	Target *Env // a second, independently initialised application instance that receives the import
 }
 
-func (r *RoundTrip) ID() string                             { return r.Spec.Property + "/" + r.Inner.ID() }
-func (r *RoundTrip) Stores() []string                       { return r.Inner.Stores() }
-func (r *RoundTrip) Init(e *Env) *State                     { return r.Inner.Init(e) }
-func (r *RoundTrip) Enabled(e *Env, s *State) []Op          { return r.Inner.Enabled(e, s) }
+func (r *RoundTrip) ID() string                    { return r.Spec.Property + "/" + r.Inner.ID() }
+func (r *RoundTrip) Stores() []string              { return r.Inner.Stores() }
+func (r *RoundTrip) Init(e *Env) *State            { return r.Inner.Init(e) }
+func (r *RoundTrip) Enabled(e *Env, s *State) []Op {
+	ops := r.Inner.Enabled(e, s)
+	for i, g := range r.Spec.Gov {
+		ops = append(ops, Op{Name: "gov:" + g.Name, Data: govIdx(i)})
+	}
+	return ops
+}
+
+type govIdx int
+
 func (r *RoundTrip) Apply(e *Env, s *State, op Op) []Finding {
+	if gi, ok := op.Data.(govIdx); ok {
+		if m := r.Spec.Gov[gi].Msg(e, s.Ctx); m != nil {
+			s.Deliver(e, op.Name, m)
+		} else {
+			s.Last = "err"
+		}
+		return nil
+	}
 	r.Inner.Apply(e, s, op) // the inner property's own verdicts belong to its own check
 	return nil
 }
